@@ -96,6 +96,14 @@ func (u *SPDX23) Unserialize(r io.Reader, _ *native.UnserializeOptions, _ interf
 		if r == nil {
 			continue
 		}
+		// Relationships to NONE or NOASSERTION do not point to an element and
+		// the document itself is not a node of the graph
+		if r.RefB.SpecialID != "" || r.RefB.ElementRefID == protospdx.DOCUMENT {
+			continue
+		}
+		if r.RefA.ElementRefID == protospdx.DOCUMENT && !strings.EqualFold(r.Relationship, "DESCRIBES") {
+			continue
+		}
 		// The SPDX go library surfaces the JSON top-level elements as relationships:
 		if r.RefA.ElementRefID == "DOCUMENT" && strings.EqualFold(r.Relationship, "DESCRIBES") {
 			bom.NodeList.RootElements = append(bom.NodeList.RootElements, string(r.RefB.ElementRefID))
